@@ -316,6 +316,12 @@ def simplify(t, sym=None):
                 return b[1][int(t[2])]
             except (ValueError, IndexError):
                 return t
+        if b[0] == "closure":
+            # captured variable of a closure value (closure bodies inlined by vlint.inline)
+            try:
+                return b[2][int(t[2])]
+            except (ValueError, IndexError, TypeError):
+                return t
         if b[0] == "bin" and b[1] in ("AddWithOverflow", "SubWithOverflow", "MulWithOverflow"):
             base = b[1][:3]
             if t[2] == "0":
